@@ -41,10 +41,21 @@ S_SETTINGS = "db.Settings = d0.Setting\n"
 S_STRARG = "db.Setting = lb(\"HASH('StructureBattery')\", LogicType.Ratio, LogicBatchMethod.Average)\n"
 S_STRUCT_REBIND = "x = Furnace(d2)\ndb.Setting = x.Import.Occupied\nx = 0\nwhile x < 3:\n    x += 1\n    db.Setting = x\n"
 
+S_NAN_TEST = "while True:\n    yield_()\n    z = d0.Setting - d0.Setting\n    x = z / z\n    if 1 < x:\n        db.Setting = 1\n    else:\n        db.Setting = 2\n"
+
 RA = {"in": ["ra-mismatch", "return-without-call"]}
 FALL = {"in": ["fall-through", "jump-into-function", "return-without-call"]}
 
 FINDINGS = [
+    dict(
+        id="KF-C01-test-on-nan-takes-the-body",
+        property="C01",
+        also=["C06"],
+        trigger="test_compares_nan_at_run_time",
+        what="'if a < b:' is emitted as 'bge a b <else>' (the negated comparison): with a NaN operand neither holds, so the chip runs the body although the comparison is false ('c = a < b; if c:' and the source take the else arm); same for while tests and the other five operators",
+        signatures=dict(C01=[dict(monitor="trace", nan_in_test=True, machine_event=None)], C06=[dict(monitor="trace", nan_in_test=True, machine_event=None)]),
+        witness=dict(C01=prog(S_NAN_TEST, [V_DEF])),
+    ),
     dict(
         id="KF-C07-fallthrough",
         property="C07",
